@@ -1,5 +1,6 @@
 import GB.C04.Refine
 import GB.C04.WF
+import GB.C04.B64
 /-
   C04 — transcoded requests populate the gRPC message per the http.proto binding rules.
 
@@ -671,4 +672,39 @@ theorem C04_query_spelling_order_dependent_fails :
       = .ok [([[97, 95, 98]], .single (.int 2))]
     ∧ transcode exSchemaJ exNoOracle exJ ⟨[]⟩ .none ⟨[], [([97, 66], [[50]]), ([97, 95, 98], [[49]])]⟩
       = .ok [([[97, 95, 98]], .single (.int 1))] := by
+  decide
+
+/-! ## base64 text of bytes fields -/
+
+/-- `gwquery.Bytes` decodes what both Go encoders produce: for every byte string b,
+    Bytes(StdEncoding.EncodeToString(b)) = b and Bytes(URLEncoding.EncodeToString(b)) = b
+    (`b64encode false` / `b64encode true` are the two padded encoders; the URL text is first tried with the
+    standard alphabet, which yields the same bytes or rejects it — `b64quanta_cross`). -/
+theorem C04_b64_roundtrip (url : Bool) (b : Bytes) : parseBytes (b64encode url b) = some b :=
+  parseBytes_encode url b
+
+/-- each alphabet's decoder inverts its own encoder -/
+theorem C04_b64_roundtrip_alphabet (url : Bool) (b : Bytes) : b64decode url (b64encode url b) = some b :=
+  b64decode_encode url b
+
+/-- accepted text consists of characters of ONE alphabet as coded — A–Z a–z 0–9 and `+ /` (standard, tried
+    first) or `- _` (URL) — besides `=` padding and the ignored `\r` `\n`; and the result is the standard
+    decoding if that succeeds, else the URL decoding. -/
+theorem C04_bytes_text (s b : Bytes) (h : parseBytes s = some b) :
+    (b64decode false s = some b ∧ ∀ c ∈ s, c = 10 ∨ c = 13 ∨ c = 61 ∨ (b64val false c).isSome = true)
+    ∨ (b64decode false s = none ∧ b64decode true s = some b ∧ ∀ c ∈ s, c = 10 ∨ c = 13 ∨ c = 61 ∨ (b64val true c).isSome = true) := by
+  unfold parseBytes at h
+  cases hs : b64decode false s with
+  | some x =>
+    simp [hs] at h; subst h
+    exact Or.inl ⟨rfl, b64decode_chars false s x hs⟩
+  | none =>
+    simp [hs] at h
+    exact Or.inr ⟨rfl, h, b64decode_chars true s b h⟩
+
+/-- the alphabets as coded: exactly 64 characters each, differing in the last two -/
+example : (List.range 256).filter (fun n => (b64val false (UInt8.ofNat n)).isSome) =
+      (List.range 256).filter (fun n => (65 ≤ n ∧ n ≤ 90) ∨ (97 ≤ n ∧ n ≤ 122) ∨ (48 ≤ n ∧ n ≤ 57) ∨ n = 43 ∨ n = 47)
+    ∧ (List.range 256).filter (fun n => (b64val true (UInt8.ofNat n)).isSome) =
+      (List.range 256).filter (fun n => (65 ≤ n ∧ n ≤ 90) ∨ (97 ≤ n ∧ n ≤ 122) ∨ (48 ≤ n ∧ n ≤ 57) ∨ n = 45 ∨ n = 95) := by
   decide
